@@ -226,6 +226,7 @@ func (rc *RPCClient) SyncRequest(ctx context.Context, rpcReq *RPCRequest) (rpcRe
 		// We don't want a result for errors, but a null success response needs to go in there
 		rpcRes.Result = fftypes.JSONAnyPtr(fftypes.NullString)
 	}
+	rpcRes.JSONRpc = "2.0" // whatever the backend put (or omitted) in its reply, ours is a JSON-RPC 2.0 response
 	return rpcRes, nil
 }
 
